@@ -1115,6 +1115,7 @@ const c11DevBody = `container c { leaf lf { type string; units "cm"; default "d"
     leaf mm { type string; units "cm"; default "d"; must "m1"; must "m2"; must "m3"; }
     list l3 { key k; unique "u1"; unique "u2"; unique "u1 u2"; leaf k { type string; } leaf u1 { type string; } leaf u2 { type string; } }
     list l4 { key k; unique "u2 u1"; unique "u1"; leaf k { type string; } leaf u1 { type string; } leaf u2 { type string; } }
+    list l5 { key k; unique "u3 u1"; unique "u2 u1"; leaf k { type string; } leaf u1 { type string; } leaf u2 { type string; } leaf u3 { type string; } }
     leaf-list ll { type string; min-elements 1; max-elements 5; default "a"; default "b"; units "u"; }
     list li { key k; unique "u1 u2"; max-elements 9; min-elements 0; leaf k { type string; } leaf u1 { type string; } leaf u2 { type string; } must "y"; }
     leaf-list lu { type string; max-elements unbounded; }
@@ -1195,6 +1196,8 @@ func c11Deviations() []c11Dev {
 		{"delete/middle-unique", "/c/l3", `deviate delete { unique "u2"; }`, true, []string{"unique="}, false, map[string][]string{"unique=": {"unique=[[u1] [u1 u2]]"}}},
 		{"delete/unique-keeps-field-order-of-others", "/c/l4", `deviate delete { unique "u1"; }`, true, []string{"unique="}, false, map[string][]string{"unique=": {"unique=[[u2 u1]]"}}},
 		{"delete/unique-given-in-another-field-order", "/c/l4", `deviate delete { unique "u1 u2"; }`, true, []string{"unique="}, false, map[string][]string{"unique=": {"unique=[[u1]]"}}},
+		{"delete/unique-of-the-same-length-as-a-survivor", "/c/l4", `deviate delete { unique "u1"; }`, true, []string{"unique="}, false, map[string][]string{"unique=": {"unique=[[u2 u1]]"}}},
+		{"delete/one-of-two-uniques-of-the-same-length", "/c/l5", `deviate delete { unique "u1 u2"; }`, true, []string{"unique="}, false, map[string][]string{"unique=": {"unique=[[u3 u1]]"}}},
 		{"add/two-uniques", "/c/li", `deviate add { unique "u1"; unique "u2"; }`, true, []string{"unique="}, false, map[string][]string{"unique=": {"unique=[[u1 u2] [u1] [u2]]"}}},
 		{"delete/must-units-default", "/c/mm", `deviate delete { units "cm"; must "m2"; default "d"; }`, true, []string{"must[", "units=", "default="}, false, map[string][]string{"must[": {`must[0]="m1" msg="" tag=""`, `must[1]="m3" msg="" tag=""`}, "units=": {`units=""`}}},
 		{"replace/units-default-config", "/c/lf", `deviate replace { units "mm"; default "e"; config false; }`, true, []string{"units=", "default=", "config="}, false, map[string][]string{"units=": {`units="mm"`}, "default=": {"default=e"}, "config=": {"config=false"}}},
